@@ -6,7 +6,7 @@ Over M-TRANS (`Slock.Model.Trans`): the connection layer of ONE node — its rol
 `TransparencyManager` knows, its client connections (binary / text) with the protocol object each one has, the link
 (`TransparencyBinaryClientProtocol`) behind each, the latest in-flight command of every link — and an abstract leader
 whose frames are inputs. Events: `accept`, `request c short q`, `leaderMsg c m early`, `unattached c` (a frame read before
-the fresh link was attached: dropped unseen), `linkDown c`, `role r`, `leader a` (`ChangeLeader`), `close c`. `step s e = (s', out)`: `out.client` = what CLIENTS receive, `out.fwd` = what is SENT TO THE LEADER, `out.tag` =
+the fresh link was attached: dropped unseen), `linkDown c`, `role r`, `leader a` (`ChangeLeader`), `close c`, `closeCut c k` (close during which the link's reader closes the link after k frames). `step s e = (s', out)`: `out.client` = what CLIENTS receive, `out.fwd` = what is SENT TO THE LEADER, `out.tag` =
 who handled it. `run evs` = the state after ANY event sequence from the initial node; the per-step theorems hold in
 EVERY state `s` (so in every state of every sequence, whatever the interleaving of connections and role changes).
 
@@ -157,6 +157,31 @@ theorem C10F_wills_dropped_without_link :
     (runOut {} [.accept .binary, .request 0 false (.will .lock (demoCmd 1 10 0 0)), .close 0]).map (·.fwd) =
       [[], [], [(0, .lk .lock (demoCmd 1 10 0 0))]] := by
   decide
+
+/-- **VIOLATED ("registered wills are forwarded when the connection closes")**: while `Close` writes the INIT and the will
+commands to the leader, the link's reader relays the leader's first answers to the client that has gone; the second such
+write fails, the reader returns and CLOSES the link — the wills not written by then are lost (`closeCut 0 2`: of INIT +
+three wills only INIT and the first will went out). Which prefix goes out is a race inside the node; any is possible. -/
+theorem C10F_wills_cut_short_violated :
+    (runOut {} [.accept .binary, .request 0 false (.init 1 9), .leaderMsg 0 (.initRes 1 0 12) false,
+        .request 0 false (.will .unlock (demoCmd 2 10 0 0)), .request 0 false (.will .lock (demoCmd 3 11 0 0)),
+        .request 0 false (.will .lock (demoCmd 4 12 0 0)), .linkDown 0, .closeCut 0 2]).getLast?.map (·.fwd) =
+      some [(0, .init 1 9), (0, .lk .unlock (demoCmd 2 10 0 0))] ∧
+    ∀ (s : Node) (c k : Nat) (f : Nat × Fwd), f ∈ (step s (.closeCut c k)).2.fwd → f ∈ (step s (.close c)).2.fwd := by
+  refine ⟨by decide, ?_⟩
+  intro s c k f hf
+  simp only [step, stepClose] at hf ⊢
+  cases hx : s.conns[c]? with
+  | none => simp [hx] at hf
+  | some x =>
+    simp only [hx] at hf ⊢
+    by_cases hc : x.closed = true
+    · simp [hc] at hf
+    · by_cases ha : x.awaiting.isSome = true
+      · simp [hc, ha] at hf
+      · simp only [if_neg hc, if_neg ha, List.mem_map] at hf ⊢
+        obtain ⟨g, hg, rfl⟩ := hf
+        exact ⟨g, List.mem_of_mem_take hg, rfl⟩
 
 /-! ## same outcome -/
 
